@@ -47,23 +47,35 @@ PROBE = ('# **Bold Title**\n\nThis is a "quoted" sentence that\'s fairly long an
 KINDFILE = {"dot": ".flowmark.toml", "plain": "flowmark.toml", "pyp_with": "pyproject.toml", "pyp_without": "pyproject.toml"}
 
 
-def flag_args(s, state):
+def flag_args(s, state, sp=0):
+    """sp rotates through the spellings argparse accepts for the same flag (long / short, separate / attached value, prefix)"""
     if state == "absent":
         return []
     v = DEFAULT[s] if state == "given_default" else FLAGVAL[s]
     if s == "width":
-        return ["-w", str(v)]
+        return [["-w", str(v)], [f"--width={v}"], [f"-w{v}"], ["--width", str(v)], ["--wid", str(v)]][sp % 5]
     if s == "list_spacing":
-        return ["--list-spacing", v]
+        return [["--list-spacing", v], [f"--list-spacing={v}"], ["--list-sp", v]][sp % 3]
     if s == "files_max_size":
-        return ["--files-max-size", str(v)]
+        return [["--files-max-size", str(v)], [f"--files-max-size={v}"]][sp % 2]
     if s in ("extend_include", "exclude", "extend_exclude"):
-        return [f"--{s.replace('_', '-')}", v[0]]
+        return [[f"--{s.replace('_', '-')}", v[0]], [f"--{s.replace('_', '-')}={v[0]}"]][sp % 2]
     if s == "respect_gitignore":
-        return ["--no-respect-gitignore"]
+        return [["--no-respect-gitignore"], ["--no-respect-git"]][sp % 2]
     if s == "force_exclude":
-        return ["--force-exclude"]
-    return {"semantic": ["-s"], "cleanups": ["-c"], "smartquotes": ["--smartquotes"], "ellipses": ["--ellipses"]}[s]
+        return [["--force-exclude"], ["--force-ex"]][sp % 2]
+    return {"semantic": [["-s"], ["--semantic"]], "cleanups": [["-c"], ["--cleanups"]], "smartquotes": [["--smartquotes"], ["--smartq"]],
+            "ellipses": [["--ellipses"], ["--ell"]]}[s][sp % 2]
+
+
+def cluster(argv):
+    """-s -c -w 40 -> -scw40: adjacent short flags written as one cluster (argparse accepts it; explicitness must survive)"""
+    shorts = [a for a in argv if a in ("-s", "-c")]
+    w = next((j for j, a in enumerate(argv) if a == "-w"), None)
+    if not shorts or (w is None and len(shorts) < 2):
+        return argv
+    rest = [a for j, a in enumerate(argv) if a not in ("-s", "-c") and not (w is not None and j in (w, w + 1))]
+    return ["-" + "".join(x[1] for x in shorts) + (f"w{argv[w + 1]}" if w is not None else "")] + rest
 
 
 def cfg_value(s, auto):
@@ -180,7 +192,9 @@ def _merge_point(job):
         cfgvals.update({s: DEFAULT[s] for s, c in ((p["s1"], p["c1"]), (p["s2"], p["c2"])) if c == "setdef" and DEFAULT[s] is not None})
         if cfgvals:
             open("flowmark.toml", "w").write(render_config(cfgvals, idx % 4))
-        argv = flag_args(p["s1"], p["f1"]) + flag_args(p["s2"], p["f2"])
+        argv = flag_args(p["s1"], p["f1"], idx // 4) + flag_args(p["s2"], p["f2"], idx // 4 + 1)
+        if idx % 3 == 0:
+            argv = cluster(argv)
         rc1, fmt, err1, rc2, lst, err2 = observe(argv, auto)
         base = {s: (PRESET[s] if auto and s in PRESET else DEFAULT[s]) for s in SETTINGS}
         obs = []
